@@ -53,7 +53,19 @@ def make_hierarchy(c):
     if c["kind"] == "full":
         ta, agg, ham, sbi = build_system(c["N"], [30.0 + 10 * k for k in range(c["N"])], [40.0 + 5 * k for k in range(c["N"])])
         with contextlib.redirect_stdout(io.StringIO()):
-            hy = KTHierarchy(ham, sbi, c["depth"])
+            via = c.get("via", "class")
+            if via == "class":
+                hy = KTHierarchy(ham, sbi, c["depth"])
+            elif via == "system":                   # the public entry points of the open system (positional / keyword depth)
+                hy = agg.get_KTHierarchy(c["depth"]) if c.get("positional", True) else agg.get_KTHierarchy(depth=c["depth"])
+            elif via == "propagator":
+                prop = (agg.get_KTHierarchyPropagator(c["depth"]) if c.get("positional", True)
+                        else agg.get_KTHierarchyPropagator(depth=c["depth"]))
+                hy = prop.hy
+            else:
+                raise ValueError(via)
+        if int(hy.depth) != c["depth"]:
+            raise AssertionError("hierarchy of depth %d requested through %s, depth %d delivered" % (c["depth"], via, int(hy.depth)))
         return hy
     hy = KTHierarchy.__new__(KTHierarchy)
     hy.nbath, hy.depth = c["N"], c["depth"]
@@ -271,7 +283,7 @@ def run(chk, cases):
                     cm.clist([cm.clist([cm.zlit(x) for x in row]) for row in hy.np1]),
                     cm.clist(["%d%%nat" % x for x in hy.levels]), cm.clist(["%d%%nat" % x for x in hy.levlengths])))
                 tab_meta.append(c)
-                chk.case((c["kind"], c["N"], c["depth"]), c["N"] >= 2 and c["depth"] >= 2,
+                chk.case((c["kind"], c["N"], c["depth"], c.get("via", "class"), c.get("positional", True)), c["N"] >= 2 and c["depth"] >= 2,
                          sample={"case": c, "hsize": int(hy.hsize), "first_rows": [list(map(int, x)) for x in hy.hinds[:6]]})
             elif c["kind"] == "rhs":
                 hy, ado, out = run_rhs(c)
@@ -321,7 +333,7 @@ def run(chk, cases):
 
 def main():
     chk = cm.Check(PID, args.tier)
-    chk.rule = ("index tables of real KTHierarchy objects for all (baths, depth) of a grid (through __init__ for <= 4 molecules, bare "
+    chk.rule = ("index tables of real KTHierarchy objects for all (baths, depth) of a grid (through __init__ and through the open system's get_KTHierarchy / get_KTHierarchyPropagator, depth positional and by keyword, for <= 4 molecules, bare "
                 "for more baths); random Gaussian-integer right-hand-side cases (1-3 baths, depth 1-3, dim 2-3, slevel 0/1); real "
                 "propagations for the monitors; non-trivial: >= 2 baths and depth >= 2")
     chk.assumptions = ["bare hierarchies replicate the index part of KTHierarchy.__init__ (generate_indices, _convert_2_matrix, _make_nmp1, _make_Gamma)",
@@ -343,6 +355,11 @@ def main():
         bare = [(1, 5), (2, 5), (3, 4), (4, 3), (5, 2), (5, 3), (6, 2)] if args.tier == "quick" else \
             [(n, d) for n in range(1, 7) for d in range(0, 6) if not (n >= 5 and d >= 5)]
         cases += [{"kind": "full", "N": n, "depth": d} for (n, d) in full]
+        # the same tables through the public entry points of the open system (get_KTHierarchy / get_KTHierarchyPropagator)
+        entry = [(2, 0), (2, 1), (2, 3), (3, 1), (3, 3)] if args.tier == "quick" else [(n, d) for n in range(1, 4) for d in range(0, 5)]
+        for k, (n, d) in enumerate(entry):
+            cases.append({"kind": "full", "N": n, "depth": d, "via": "system", "positional": k % 2 == 0})
+            cases.append({"kind": "full", "N": n, "depth": d, "via": "propagator", "positional": k % 2 == 1})
         cases += [{"kind": "bare", "N": n, "depth": d} for (n, d) in bare]
         cases += [rhs_case(r, k) for k in range(40 if args.tier == "quick" else 400)]
         run(chk, cases)
